@@ -1,5 +1,6 @@
 import PolyVerif.Lemmas.GbWrapS
 import PolyVerif.Lemmas.GbLayoutJ
+import PolyVerif.Lemmas.GbBlankRun
 /-
 C03: write-then-read over the parser model on the widened domain `covered` (metadata with runs of blanks
 none of which falls on a wrap point; REFERENCE lines wrapped without loss): the lines `Build` writes are
@@ -8,7 +9,7 @@ the C01 layout `GbLayout.layout (toRec x) (polyLayout x)`.
 namespace PolyVerif.Lemmas.GbRoundTripG
 open PolyVerif PolyVerif.StrBuild PolyVerif.GenbankBuild
 open PolyVerif.Lemmas.GbBuild PolyVerif.Lemmas.GbLayout PolyVerif.Lemmas.GbOrigin PolyVerif.Lemmas.GbLocus
-open PolyVerif.Lemmas.GbCompose PolyVerif.Lemmas.GbRoundTrip PolyVerif.Lemmas.GbWrapS PolyVerif.Lemmas.GbLayoutJ
+open PolyVerif.Lemmas.GbCompose PolyVerif.Lemmas.GbRoundTrip PolyVerif.Lemmas.GbWrapS PolyVerif.Lemmas.GbLayoutJ PolyVerif.Lemmas.GbWrapRel
 open PolyVerif.Spec.GbStrict (lines joinSp textJ printable wfLayoutJ wfLayoutG wfRefJ wfOtherJ wfRefIndex refNum sortedEntries
   wfFeature optSub trimRight isWord visible)
 open PolyVerif.Spec.GbRoundTrip
@@ -177,8 +178,8 @@ theorem refsGood_of : ∀ (refs : List Reference) (i : Nat), refs.all wfRefJ = t
 theorem lines_build_eq_layout (x : Sequence) (h : covered x = true) :
     lines (build x MapOrders.id) = PolyVerif.GbLayout.layout (toRec x) (polyLayout x) := by
   simp only [covered, Bool.and_eq_true] at h
-  obtain ⟨⟨⟨⟨⟨hG, _⟩, _⟩, _⟩, hfit⟩, _⟩ := h
-  have f := facts_of_wfLayoutG x hG
+  obtain ⟨⟨⟨⟨⟨⟨hG, _⟩, _⟩, _⟩, hfit⟩, _⟩, _⟩ := h
+  have f := PolyVerif.Lemmas.GbBlankRun.facts_of_wfLayoutG x hG
   have hj : wfLayoutJ x = true := by
     simp only [wfLayoutG, Bool.and_eq_true] at hG
     exact hG.1.1
@@ -234,7 +235,7 @@ theorem parse_build_covered (x : Sequence) (o : MapOrders) (h : covered x = true
     Genbank.parse (build x o) = .ok (PolyVerif.GbLayout.toSequence (toRec x)) := by
   have hwf : PolyVerif.GbLayout.wf (toRec x) = true := by
     simp only [covered, Bool.and_eq_true] at h
-    exact h.2
+    exact h.1.2
   rw [build_order_irrelevant x o MapOrders.id]
   unfold Genbank.parse
   rw [show (['\n'] : Str) = ['\n'] from rfl, split_nl_eq_lines, lines_build_eq_layout x h]
@@ -245,7 +246,7 @@ theorem parse_build_covered (x : Sequence) (o : MapOrders) (h : covered x = true
 theorem approx_covered (x : Sequence) (h : covered x = true) :
     approx x (PolyVerif.GbLayout.toSequence (toRec x)) = true := by
   simp only [covered, Bool.and_eq_true, Bool.not_eq_true'] at h
-  obtain ⟨⟨⟨⟨⟨_, hnb⟩, _⟩, hfeatRT⟩, _⟩, _⟩ := h
+  obtain ⟨⟨⟨⟨⟨⟨_, hnb⟩, _⟩, hfeatRT⟩, _⟩, _⟩, hfeatLoc⟩ := h
   have hc : ((if x.metadata.locus.circular = true then some PolyVerif.GbLayout.Topology.circular
         else if x.metadata.locus.linear = true then some PolyVerif.GbLayout.Topology.linear else none)
           == some PolyVerif.GbLayout.Topology.circular) = x.metadata.locus.circular := by
@@ -257,7 +258,7 @@ theorem approx_covered (x : Sequence) (h : covered x = true) :
   have hrefs : listApprox refApprox (PolyVerif.Spec.GbStrict.withDefaultIndex x).metadata.references
       (PolyVerif.GbLayout.toRefs 0 (x.metadata.references.map toRRef)) = true := refs_approx _ 0
   unfold approx PolyVerif.GbLayout.toSequence PolyVerif.GbLayout.toLocus toRec
-  simp only [Bool.and_eq_true, beq_iff_eq, hc, hl, hrefs, feats_approx _ hfeatRT, and_true,
+  simp only [Bool.and_eq_true, beq_iff_eq, hc, hl, hrefs, feats_approx _ hfeatRT hfeatLoc, and_true,
     beq_self_eq_true]
 
 end PolyVerif.Lemmas.GbRoundTripG
